@@ -1072,7 +1072,9 @@ pub fn gen(seed: u64, tier: &str) -> Vec<String> {
                             done = true;
                             break;
                         }
-                        assert!(done);
+                        // (no content with that annotation kind turned up in 40 tries: skip this combination
+                        // for this seed rather than fail — a generator must never panic)
+                        let _ = done;
                     }
                 }
             }
